@@ -290,7 +290,7 @@ def snapshot(v, depth=0):
     if isinstance(v, RefV):
         return ("ref", v.cell.tag, v.path, snapshot(load(Loc(v.cell, v.path)), depth + 1))
     if isinstance(v, SymV):
-        return ("sym", v.id, v.desc if isinstance(v.desc, str) else v.desc[0])
+        return ("sym", v.id, v.desc)
     if isinstance(v, FnV):
         return ("fn", v.path)
     if isinstance(v, ClosureV):
@@ -355,6 +355,15 @@ class Engine:
                 v = self.resolve(st, load(loc))
                 if isinstance(v, RefV):
                     loc = Loc(v.cell, v.path)
+                elif isinstance(v, SymV):
+                    # unknown pointer: allocate an abstract pointee and bind the symbol to it
+                    nv = RefV(Cell(st.fresh(("pointee", v.desc)), "mem(%s)" % (v.id,)), (), True)
+                    st.facts[v.id] = nv
+                    loc = Loc(nv.cell, ())
+                elif isinstance(v, TopV):
+                    nv = RefV(Cell(TOP, "mem?"), (), True)
+                    store(loc, nv)
+                    loc = Loc(nv.cell, ())
                 else:
                     return None
             elif k == "field":
@@ -550,6 +559,9 @@ class Engine:
                 return st.fresh(("len", snapshot(a)))
             return st.fresh(("unop", rv["op"], snapshot(a)))
         if k == "discr":
+            if rv.get("adt"):
+                rv = dict(rv)
+                rv["adt"] = self.unit_qual(fr, rv["adt"])
             loc = self.place_loc(st, fr, rv["place"])
             if loc is None:
                 return st.fresh(("discr", rv.get("adt")))
@@ -579,7 +591,11 @@ class Engine:
 
     def unit_qual(self, fr, p):
         u = fr.mir.unit if fr.mir is not None else self.unit
-        if p.startswith("<") or "::" in p and p.split("::")[0] in ("core", "alloc", "std", "scpi", "scpi_contrib", "lexical_core", "lexical_util", "arrayvec", "uom"):
+        if not p or p.startswith("<"):
+            return p
+        if "::" in p and p.split("::")[0] in ("core", "alloc", "std", "lexical_core", "lexical_util", "lexical_parse_float", "lexical_parse_integer", "arrayvec", "uom", "num_traits", u.crate):
+            return p
+        if p.split("::")[0] in ("scpi", "scpi_contrib") and u.crate != p.split("::")[0] and p.split("::")[0] in [c for c in u.crates]:
             return p
         return u.qualify(p, u.crate)
 
@@ -723,7 +739,12 @@ class Engine:
                 name = table.get(tv) if table else None
                 old = load(d2.loc)
                 fields = old.fields if isinstance(old, EnumV) and old.name == name else {}
-                store(d2.loc, EnumV(adt, name, tv, fields))
+                ev = EnumV(adt, name, tv, fields)
+                if isinstance(old, SymV):
+                    ev.fields = {0: s2.fresh(("field0", old.desc))}
+                    s2.facts[old.id] = ev
+                    s2.trace.append(Event("assume", "variant", None, (snapshot(old), name), fr.bi, t["line"], len(s2.frames), fr.body.npath if fr.body else "?"))
+                store(d2.loc, ev)
                 f2.bi = bb
                 out.append(s2)
             # otherwise edge: feasible iff some variant remains
@@ -738,8 +759,14 @@ class Engine:
                 else:
                     s2 = st  # reuse
                     d2 = d
+                    old = load(d2.loc)
                     if remaining is not None and len(remaining) == 1:
-                        store(d2.loc, EnumV(adt, table[remaining[0]], remaining[0], {}))
+                        ev = EnumV(adt, table[remaining[0]], remaining[0], {})
+                        if isinstance(old, SymV):
+                            ev.fields = {0: st.fresh(("field0", old.desc))}
+                            st.facts[old.id] = ev
+                            st.trace.append(Event("assume", "variant", None, (snapshot(old), ev.name), fr.bi, t["line"], len(st.frames), fr.body.npath if fr.body else "?"))
+                        store(d2.loc, ev)
                     else:
                         old = load(d2.loc)
                         store(d2.loc, EnumV(adt, None, None, {}, frozenset(covered)))
@@ -823,7 +850,7 @@ class Engine:
             a = self.resolve(st, a)
             if isinstance(a, RefV) and a.mut:
                 self.havoc(a)
-        r = st.fresh(("ret", name, fr.bi))
+        r = st.fresh(("ret", name, fr.bi, tuple(snapshot(a) for a in args)))
         return self.finish_call(st, fr, [(st, r)], dest, target, t)
 
     def havoc(self, ref):
@@ -964,7 +991,7 @@ def split2(eng, st, fr, t, v, adt, names):
     out = []
     states = [st, eng.fork(st)]
     for s, (d, nm, nf) in zip(states, names):
-        ev = EnumV(adt, nm, d, {0: s.fresh(("payload", nm))} if nf else {})
+        ev = EnumV(adt, nm, d, {0: s.fresh(("payload", nm, v.desc if isinstance(v, SymV) else snapshot(v)))} if nf else {})
         if isinstance(v, SymV):
             s.facts[v.id] = ev
         s.trace.append(Event("assume", "variant", None, (snapshot(v), nm), fr.bi, t.get("line") if t else "?", len(s.frames), fr.body.npath if fr.body else "?"))
@@ -1148,6 +1175,26 @@ def m_unwrap_or(eng, st, fr, t, name, rname, args):
     return NotImplemented
 
 
+def m_unwrap(eng, st, fr, t, name, rname, args):
+    v = eng.resolve(st, args[0])
+    if not (isinstance(v, EnumV) and v.name is not None):
+        return NotImplemented
+    if v.name in ("Some", "Ok"):
+        return v.fields.get(0, TOP)
+    st.trace.append(Event("panic", name, None, (snapshot(v),), fr.bi, t.get("line") if t else "?", len(st.frames), fr.body.npath if fr.body else "?"))
+    st.outcome = "panic"
+    return [(st, TOP)]
+
+
+def m_unwrap_or_default(eng, st, fr, t, name, rname, args):
+    v = eng.resolve(st, args[0])
+    if isinstance(v, EnumV) and v.name in ("Some", "Ok"):
+        return v.fields.get(0, TOP)
+    if isinstance(v, EnumV) and v.name in ("None", "Err"):
+        return AggV("Default::default", {})
+    return NotImplemented
+
+
 def m_deref_id(eng, st, fr, t, name, rname, args):
     return args[0]
 
@@ -1183,6 +1230,12 @@ DEFAULT_MODELS = {
     "core::option::Option::ok_or_else": lift(None, m_ok_or_else, "option"),
     "core::option::Option::unwrap_or": lift(None, m_unwrap_or, "option"),
     "core::result::Result::unwrap_or": lift(None, m_unwrap_or, "result"),
+    "core::option::Option::unwrap": lift(None, m_unwrap, "option"),
+    "core::option::Option::expect": lift(None, m_unwrap, "option"),
+    "core::result::Result::unwrap": lift(None, m_unwrap, "result"),
+    "core::result::Result::expect": lift(None, m_unwrap, "result"),
+    "core::option::Option::unwrap_or_default": lift(None, m_unwrap_or_default, "option"),
+    "core::result::Result::unwrap_or_default": lift(None, m_unwrap_or_default, "result"),
     "core::ops::Deref::deref": m_deref_id,
     "core::ops::DerefMut::deref_mut": m_deref_id,
     "core::clone::Clone::clone": m_clone,
